@@ -187,7 +187,7 @@ def body(ctx, lead_of):
         json.dump({"n": 4, "streams": streams, "alloc": alloc_classes, "allocmax": [32768, 65536]}, fh)
     rout = ctx.path("reader.ndjson")
     ctx.run_drv(drv, ["reader", "-in", rin, "-out", rout, "-seed", str(ctx.seed)], timeout=900)
-    judge_reader(ctx, rout, streams, verd)
+    rlines, rreport = judge_reader(ctx, rout, streams, verd)
 
     # ---- 3b. session level
     sin = ctx.path("session_in.json")
@@ -197,7 +197,15 @@ def body(ctx, lead_of):
     sdir = ctx.path("sess", "x")
     ctx.run_drv(drv, ["session", "-in", sin, "-out", sout, "-dir", os.path.dirname(sdir), "-workers", str(ctx.pick(8, 10))],
                 timeout=ctx.pick(900, 3000))
-    judge_session(ctx, sout, scenarios, verd)
+    slines, sreport = judge_session(ctx, sout, scenarios, verd)
+
+    # ---- 4. one TLC run judges everything that was recorded
+    done = set()
+    for owner, ln, tag, ev in tlc_judge(ctx, rlines + slines, "clean.ndjson"):
+        if (owner, tag) in done:
+            continue
+        done.add((owner, tag))
+        (rreport if isinstance(owner, tuple) else sreport)(owner, tag, ev)
 
 
 # ------------------------------------------------------------------------------------------------ judging
@@ -265,11 +273,8 @@ def judge_reader(ctx, path, streams, verd):
         ctx.extra["reader_alloc_worst"] = {"cls": worst[0], "maxmsg": worst[1], "delta": worst[2]}
         ctx.extra["reader_alloc_oversize"] = {c: d for c, m, d in allocs if c.startswith("oversize.") and m == 65536}
     ctx.sample({"reader_stream": streams[len(streams) // 2]})
-    done = set()
-    for owner, ln, tag, ev in tlc_judge(ctx, lines, "reader_clean.ndjson"):
-        if owner in done:
-            continue
-        done.add(owner)
+
+    def report(owner, tag, ev):
         obl, _, kind = tag.partition("/")
         if owner[0] == "alloc":
             sig = "tag=%s level=reader cls=%s maxmsg=%d" % (tag, owner[1], owner[2])
@@ -281,6 +286,7 @@ def judge_reader(ctx, path, streams, verd):
             det = {"stream": s, "events": [e for o, e in lines if o == owner]}
             what = "reader: %s on stream %s (maxmsg %d)" % (kind or obl, ",".join(s["seq"]), s["maxmsg"])
         ctx.violation(obl, sig, what, det)
+    return lines, report
 
 
 def hist_class(sc, verd):
@@ -328,6 +334,7 @@ def judge_session(ctx, path, scenarios, verd):
     ctx.extra["session_setup_skips"] = len(skips)
     skipped = set(i for i, _ in skips)
     conf = {}       # (state, class) -> observed result of single-message scenarios
+    memmax = [0]
     nobs = 0
     for sid in sorted(per):
         sc = by_id[sid]
@@ -347,8 +354,7 @@ def judge_session(ctx, path, scenarios, verd):
                 lines.append((owner, {"op": "Obs", "pe": e["pe"], "alive": e["alive"], "listed": e["listed"], "pong": e["pong"]}))
                 ctx.oblig("C08.dropOrHandle")
                 if sc["kind"] == "single":
-                    k = (sc["st"], sc["msgs"][0]["cls"])
-                    conf[k] = "dropped" if e["alive"] == 0 else conf.get(k, "alive")
+                    conf.setdefault((sc["st"], sc["msgs"][0]["cls"]), {})[e.get("phase", "pre")] = "dropped" if e["alive"] == 0 else "alive"
             elif op == "Advance":
                 lines.append((owner, {"op": "Advance", "to": e["to"]}))
             elif op == "Loop":
@@ -357,6 +363,10 @@ def judge_session(ctx, path, scenarios, verd):
             elif op == "Honest":
                 lines.append((owner, {"op": "Honest", "ok": e["ok"]}))
                 ctx.oblig("C08.honest")
+            elif op == "Mem":
+                lines.append((owner, {"op": "Mem", "delta": min(int(e["delta"]), BIG - 1)}))
+                ctx.oblig("C08.alloc")
+                memmax[0] = max(memmax[0], int(e["delta"]))
             elif op == "Proc":
                 lines.append((owner, {"op": "Proc", "what": e["what"]}))
                 ctx.oblig("C08.crash" if e["what"] == "crash" else "C08.hang")
@@ -368,22 +378,23 @@ def judge_session(ctx, path, scenarios, verd):
     ctx.extra["session_scenarios_by_state"] = {st: sum(1 for s in scenarios if s["st"] == st and s["id"] not in skipped) for st in STATES}
     # informational: observed result of single messages against the design table of the spec (not a verdict)
     div = []
-    for (st, c), obs in sorted(conf.items()):
-        t = "down" if st == "stopping" else st
-        exp = set(verd[c]["res"][t])
-        want_alive = bool(exp & {"handled", "queued", "skipped"})
-        want_drop = "dropped" in exp
+    for (st, c), ph in sorted(conf.items()):
         if st == "stopping":
             continue
-        if (obs == "dropped" and not want_drop) or (obs == "alive" and not want_alive):
-            div.append("%s/%s: design %s, observed %s" % (st, c, sorted(exp), obs))
+        now = set(verd[c]["res"][st])
+        checks = [("pre", now)]
+        if "post" in ph and ph.get("pre") == "alive":     # after the replay the live handler has seen a queued message
+            checks.append(("post", set(verd[c]["res"]["down"]) if "queued" in now else {"handled"}))
+        for phase, exp in checks:
+            obs = ph.get(phase)
+            if obs is None:
+                continue
+            if (obs == "dropped" and "dropped" not in exp) or (obs == "alive" and not (exp & {"handled", "queued", "skipped"})):
+                div.append("%s/%s/%s: design %s, observed %s" % (st, c, phase, sorted(exp), obs))
+    ctx.extra["session_alloc_max_per_scenario"] = memmax[0]
     ctx.extra["single_message_table"] = {"cells": len(conf), "divergent_from_design_table": div[:40]}
 
-    done = set()
-    for owner, ln, tag, ev in tlc_judge(ctx, lines, "session_clean.ndjson"):
-        if (owner, tag) in done:
-            continue
-        done.add((owner, tag))
+    def report(owner, tag, ev):
         sc = by_id[owner]
         raw = per[owner]
         obl, _, kind = tag.partition("/")
@@ -392,12 +403,12 @@ def judge_session(ctx, path, scenarios, verd):
             if e["op"] == "Proc":
                 site = e.get("site", "")
         hist = hist_class(sc, verd)
+        seq = ",".join("%d:%s" % (m["pe"], m["cls"]) for m in sc["msgs"])[:200]
         if obl in ("C08.crash", "C08.hang"):
             sig = "tag=%s site=%s st=%s hist=%s" % (tag, site, sc["st"], hist)
-            what = "%s of the client in state %s after %s: %s" % ("crash" if obl == "C08.crash" else "torrent loop blocked for ever", sc["st"],
-                                                               ",".join("%d:%s" % (m["pe"], m["cls"]) for m in sc["msgs"])[:200], site[:300])
+            what = "%s in state %s after %s: %s" % ("client crashed" if obl == "C08.crash" else "torrent loop blocked for ever", sc["st"], seq, site[:300])
         else:
-            pe = ev.get("pe", 0)
             sig = "tag=%s st=%s hist=%s" % (tag, sc["st"], hist)
-            what = "%s in state %s (attacker %s) after %s" % (tag, sc["st"], pe, ",".join("%d:%s" % (m["pe"], m["cls"]) for m in sc["msgs"])[:200])
+            what = "%s in state %s (attacker %s) after %s" % (tag, sc["st"], ev.get("pe", 0), seq)
         ctx.violation(obl, sig, what, {"scenario": sc, "events": raw, "judge_event": ev})
+    return lines, report
